@@ -205,6 +205,7 @@ func GenBook(t *rapid.T, maxChapters int, text TextFn) Book {
 	if rapid.IntRange(0, 9).Draw(t, "opfPrefix") == 0 {
 		b.Opt.OPFPrefix = "opf"
 	}
-	b.Opt.ExtraRootfile = rapid.IntRange(0, 9).Draw(t, "extraRootfile") == 0
+	b.Opt.ExtraRootfile = rapid.IntRange(0, 7).Draw(t, "extraRootfile") == 0
+	b.Opt.ExtraRootfileFirst = b.Opt.ExtraRootfile && rapid.Bool().Draw(t, "extraRootfileFirst")
 	return b
 }
